@@ -439,6 +439,7 @@ class QsRun:
             "violation": violation.as_dict() if violation else None,
             "steps": self.steps,
             "choices": list(sim.random.log),
+            "choice_alternatives": list(sim.random.alts),
             "digest": sim.digest.hex(),
             "events": sim.digest.n,
             "probes": dict(model.probes),
